@@ -310,7 +310,8 @@ def check_topdown(chk, case):
                    "topk_active" if (mi is not None and any(n > mi for n in n_an)) else "topk_inactive",
                    "peak_heights_varied" if len(gains) > 1 else "peak_heights_equal",
                    "frame_idx>2^24" if big else "frame_idx_small",
-                   f"videos={len(vids)}"] + ([f"bias={case['bias']}"] if case.get("bias") else []))
+                   f"videos={len(vids)}"] + ([f"bias={case['bias']}"] if case.get("bias") else [])
+             + (["videos_share_filename"] if case.get("same_filename") else []))
     if why_f32 and not why:
         chk.fail("C12: top-down records of frames with index > 2^24 carry the float32 rounding of the index: "
                  + "; ".join(why_f32[:2]), small, {"frame_idx": [f.frame_idx for f in frames],
@@ -350,7 +351,8 @@ def check_single(chk, case):
              {"case": "single", "B": B, "order": order, "sizes": sizes_b, "model": m_chunks},
              tags=["single", f"B={B}", f"refine={case['refine']}", f"videos={len(vids)}",
                    "frame_idx>2^24" if any(f.frame_idx > 2 ** 24 for f in frames) else "frame_idx_small"]
-             + ([f"bias={case['bias']}"] if case.get("bias") else []))
+             + ([f"bias={case['bias']}"] if case.get("bias") else [])
+             + (["videos_share_filename"] if case.get("same_filename") else []))
     if "ok " + " ".join(map(str, sizes_b)) != m_chunks.strip() and not (not sizes_b and m_chunks.strip() == "ok"):
         chk.disagree("_predict_generator rows per output dict == Decode.chunks", small, sizes_b, m_chunks)
     if sizes_v is not None and "ok " + " ".join(map(str, sizes_v)) != m_chunks_v.strip():
@@ -491,7 +493,8 @@ def impl_gt(case, vids):
     FindInstancePeaksGroundTruth, LabelsReader with `instances_key=True`."""
     flat = [f for v in vids for f in v]
     scene = stubs.Scene(flat, case["n_nodes"])
-    labels, _ = stubs.make_labels(vids, node_names=[f"n{i}" for i in range(case["n_nodes"])], order=case.get("order"))
+    labels, _ = stubs.make_labels(vids, node_names=[f"n{i}" for i in range(case["n_nodes"])], order=case.get("order"),
+                                  same_name=bool(case.get("same_filename")))
     p, cnet = stubs.build_topdown_gt(scene, labels.skeletons, sc=case["sc"], os_c=case["os_c"], ms_c=case["ms_c"],
                                      max_hw=tuple(case["max_hw"]), batch_size=case["batch"], refinement=case["refine"],
                                      max_instances=case.get("max_instances"), threshold=c02.THR)
@@ -630,7 +633,8 @@ def check_gt(chk, case):
                    "gt_frame_without_match" if 0 in n_bumps else "gt_all_frames_matched",
                    "gt_more_centroids_than_slots" if any(n > max_inst for n in n_bumps) else "gt_centroids_fit",
                    "frame_idx>2^24" if any(f.frame_idx > 2 ** 24 for f in frames) else "frame_idx_small"]
-             + ([f"bias={case['bias']}"] if case.get("bias") else []))
+             + ([f"bias={case['bias']}"] if case.get("bias") else [])
+             + (["videos_share_filename"] if case.get("same_filename") else []))
     if why:
         chk.fail("C12 fails on top-down with ground-truth peaks: " + "; ".join(why[:3]), small,
                  {"batch": [[r["code"], r["fidx"], ["-" if i is None else "inst" for i in r["insts"]]] for r in rows_b][:8]})
@@ -798,6 +802,8 @@ def add_order(rng, case, subset=True):
             rng.shuffle(perm)
     case["order"], case["perm"] = [list(o) for o in order], [list(o) for o in perm]
     case["batch"] = rng.randrange(1, 6)
+    if len(case["videos"]) > 1 and rng.random() < 0.6:
+        case["same_filename"] = True      # the videos share one filename string: identity = position in labels.videos
     return case
 
 
